@@ -14,7 +14,7 @@
    Only property statements here. *)
 From Coq Require Import List NArith Bool.
 From Lal Require Import Lock.LockOrder Lock.LockMachine Lock.LockOrderProofs Lock.LockProgress Lock.LockFacts.
-From Lal Require Import Lock.PubOrder Lock.PubOrderProofs.
+From Lal Require Import Lock.PubOrder Lock.PubOrderProofs Lock.ChanOrder Lock.ChanProofs.
 From Lal Require Import Gen.LockGraph.
 Import ListNotations.
 Open Scope N_scope.
@@ -159,6 +159,38 @@ Proof.
   intros e [<-|[<-|[]]]; exact I.
 Qed.
 Print Assumptions c20_publication_refuted.
+
+(* ---- channel discipline --------------------------------------------------------- *)
+
+(* general: for one channel that is closed somewhere, any number of threads running the actions
+   of a recognised protocol never panic (no send on the closed channel, no second close), in any
+   interleaving:
+   (a) every send and the close run as sections under one mutex that test / set a closed flag *)
+Theorem c20_chan_mutex_flag_safe : forall s0, proto_a s0 -> ~ cpanics s0.
+Proof. exact proto_a_safe. Qed.
+Print Assumptions c20_chan_mutex_flag_safe.
+
+(* (b) the closer is the only sender and closes after its last send *)
+Theorem c20_chan_unique_sender_safe : forall s0 owner, proto_b s0 owner -> ~ cpanics s0.
+Proof. exact proto_b_safe. Qed.
+Print Assumptions c20_chan_unique_sender_safe.
+
+(* (d) every sender goroutine is joined (WaitGroup) before the close *)
+Theorem c20_chan_joined_safe : forall s0 closer senders, proto_d s0 closer senders -> ~ cpanics s0.
+Proof. exact proto_d_safe. Qed.
+Print Assumptions c20_chan_joined_safe.
+
+(* without a protocol - a flag tested before the send, but not atomically with it - an
+   interleaving panics: the seeded HttpNotify.Dispose shape *)
+Theorem c20_chan_unprotected_refuted : cpanics unprotected_start.
+Proof. exact unprotected_send_panics. Qed.
+Print Assumptions c20_chan_unprotected_refuted.
+
+(* instance: every send site of a channel that lal or naza closes somewhere is justified by one of
+   the protocols (channels that are never closed need nothing: [chan_closed] lists the closed ones) *)
+Theorem c20_channel_discipline : sends_justified chan_send_sites = true.
+Proof. vm_compute. reflexivity. Qed.
+Print Assumptions c20_channel_discipline.
 
 (* ---- the hypotheses matter -------------------------------------------------- *)
 
